@@ -23,9 +23,13 @@ impl std::fmt::Display for Ref {
 /// (parent, slot, mode)
 pub type StoreAt = (Ref, u8, u8);
 
+/// `fault` values of collection ops at or above this base mean: the (fault - base + 1)-th destructor
+/// run by the call panics (below it: panic at that trace-event position)
+pub const DFAULT_BASE: u32 = 1_000_000;
+
 #[derive(Clone, Debug)]
 pub enum MOp {
-    Alloc { id: Id, kind: Kind, n: u8, init: Vec<Option<Id>> },
+    Alloc { id: Id, kind: Kind, n: u32, init: Vec<Option<Id>> },
     SetS { p: Ref, slot: u8, c: Option<Id>, mode: u8, thin: bool },
     SetW { p: Ref, slot: u8, c: Option<Id>, mode: u8 },
     Upgrade { holder: Ref, wslot: u8, store: Option<StoreAt> },
@@ -156,6 +160,8 @@ pub enum Op {
     CloneH { h: u32, new: u32 },
     DropH { h: u32 },
     DropArena { a: u8 },
+    /// drop the arena with the k-th destructor run by the drop panicking
+    DropArenaFault { a: u8, k: u32 },
     Rootless { body: Vec<MOp> },
 }
 
@@ -272,6 +278,7 @@ impl std::fmt::Display for Op {
             Op::CloneH { h, new } => write!(f, "cloneh h{}->h{}", h, new),
             Op::DropH { h } => write!(f, "droph h{}", h),
             Op::DropArena { a } => write!(f, "a{} DROP_ARENA", a),
+            Op::DropArenaFault { a, k } => write!(f, "a{} DROP_ARENA destructor#{} panics", a, k),
             Op::Rootless { body: b } => {
                 write!(f, "rootless ")?;
                 body(f, b)
